@@ -7,3 +7,9 @@ mod types;
 
 pub use state::H263State;
 pub use types::DecoderOption;
+
+#[cfg(h263_rs_verif)]
+pub(crate) mod verif {
+    pub use super::cpu::{gather, idct_channel, inverse_rle, mv_decode, predict_candidate};
+    pub use super::picture::DecodedPicture;
+}
